@@ -479,4 +479,43 @@ def runPage (rotate : Int) (mb : Rect) (res : List (String × CsSpec)) (toks : L
   | .ok st => .ok st.out
   | .error e => .error e
 
+/-! ### several pages through ONE interpreter (what `extract_pages` / `pdf2txt` do) -/
+
+/-- The state in which `render_contents` starts a page on an interpreter that has already processed other
+pages (`prev` = where the previous page's content ended): `init_resources` rebuilds the colour-space map,
+`begin_page` gives the device a new, empty page, and `init_state` overwrites exactly the attributes named in
+the regenerated list `initStateResets` - everything else would survive from the previous page. -/
+def initStateOn (prev : IState) (ctm : Matrix) (res : List (String × CsSpec)) : IState :=
+  let fresh := initState ctm res
+  let rs := initStateResets
+  { ctm := if rs.contains "ctm" then fresh.ctm else prev.ctm,
+    gs := { linewidth := if rs.contains "graphicstate" then fresh.gs.linewidth else prev.gs.linewidth,
+            dash := if rs.contains "graphicstate" then fresh.gs.dash else prev.gs.dash,
+            scolor := if rs.contains "graphicstate" then fresh.gs.scolor else prev.gs.scolor,
+            ncolor := if rs.contains "graphicstate" then fresh.gs.ncolor else prev.gs.ncolor,
+            scs := if rs.contains "scs" then fresh.gs.scs else prev.gs.scs,
+            ncs := if rs.contains "ncs" then fresh.gs.ncs else prev.gs.ncs },
+    gstack := if rs.contains "gstack" then fresh.gstack else prev.gstack,
+    curpath := if rs.contains "curpath" then fresh.curpath else prev.curpath,
+    argstack := if rs.contains "argstack" then fresh.argstack else prev.argstack,
+    csmap := fresh.csmap, out := [] }
+
+/-- One page of a document: /Rotate, MediaBox, colour-space resources, content tokens. -/
+structure PageIn where
+  rotate : Int
+  mb : Rect
+  res : List (String × CsSpec)
+  toks : List Tok
+
+/-- `for page in pages: interpreter.process_page(page)` with one interpreter: the state a page's content
+leaves behind (dangling path, unmatched `q`, colours, operands) is what the next page's `init_state` sees.
+After an exception the caller (`extract_pages`) stops; the model keeps the last good state. -/
+def runPagesFrom (prev : IState) : List PageIn → List (Except Err (List Shape))
+  | [] => []
+  | p :: rest =>
+    let (x0, y0, x1, y1) := p.mb
+    match execute p.toks (initStateOn prev (pageCtm p.rotate x0 y0 x1 y1) p.res) with
+    | .ok st => .ok st.out :: runPagesFrom st rest
+    | .error e => .error e :: runPagesFrom prev rest
+
 end PdfVerif.Paths
